@@ -45,7 +45,8 @@ type Case struct {
 	Acts []Act `json:"acts"`
 }
 
-var plainNames = []string{"a", "b", "c"}
+// plain names: no path separator, no glob syntax - among them words the catalogue itself uses as path elements below /tables/<name>/
+var plainNames = []string{"a", "b", "c", "sys", "lease"}
 
 // names that look like metadata paths or glob syntax; the API documents no restriction on table names
 var oddNames = []string{"x/y", "a/lease", "sys/idseq", "*", "[a]", "a*", "a?"}
